@@ -1,0 +1,165 @@
+//go:build verif
+
+package verifhook
+
+import (
+	"fmt"
+	"mltwist/internal/consoleui"
+	"mltwist/internal/consoleui/disassemble"
+	"mltwist/internal/consoleui/internal/lines"
+	"mltwist/internal/deps"
+	"regexp"
+	"strings"
+)
+
+// Dis is a disassembler mode driven command by command by the verification
+// harness (properties C23 and C31): the real mode of package disassemble, its
+// real command table, its listing and its cursor.
+type Dis struct {
+	view *lines.View
+	cmds map[string]consoleui.Command
+}
+
+// NewDis creates the disassembler mode over code. No emulator factory is
+// installed, the command "emulate" must not be issued.
+func NewDis(code *deps.Code) *Dis {
+	m := disassemble.New(code, nil)
+	cmds := make(map[string]consoleui.Command)
+	for _, c := range m.Commands() {
+		for _, k := range c.Keys {
+			cmds[k] = c
+		}
+	}
+	return &Dis{view: disassemble.VerifView(m), cmds: cmds}
+}
+
+// DisParseError marks errors of the command line parsing (as opposed to errors
+// returned by the command action).
+type DisParseError struct{ Err error }
+
+func (e DisParseError) Error() string { return e.Err.Error() }
+
+func disDropEmptyStrs(strs []string) []string {
+	filtered := make([]string, 0, len(strs))
+	for _, s := range strs {
+		if len(s) != 0 {
+			filtered = append(filtered, s)
+		}
+	}
+	return filtered
+}
+
+// parse is a literal copy of consoleui.UI.parseCommand over the command table
+// of the disassembler mode alone (without the standard commands).
+func (d *Dis) parse(str string) (consoleui.Command, []interface{}, error) {
+	parts := disDropEmptyStrs(strings.Split(str, " "))
+	cmdStr := parts[0]
+	parts = parts[1:]
+
+	cmd, ok := d.cmds[cmdStr]
+	if !ok {
+		return consoleui.Command{}, nil, fmt.Errorf("command %q not recognized", cmdStr)
+	}
+
+	if l := len(cmd.Args); len(parts) < l {
+		err := fmt.Errorf("too few args: command %q requires %d args", cmdStr, l)
+		return consoleui.Command{}, nil, err
+	}
+
+	args := make([]interface{}, 0, len(parts))
+	for i, parseF := range cmd.Args {
+		val, err := parseF(parts[i])
+		if err != nil {
+			err = fmt.Errorf("cannot parse argument %d: %w", i, err)
+			return consoleui.Command{}, nil, err
+		}
+
+		args = append(args, val)
+	}
+
+	parts = parts[len(cmd.Args):]
+	if len(parts) == 0 {
+		return cmd, args, nil
+	}
+
+	vals, err := cmd.OptionalArgs(parts)
+	if err != nil {
+		return consoleui.Command{}, nil, fmt.Errorf("cannot parse optional arguments: %w", err)
+	}
+	args = append(args, vals...)
+
+	return cmd, args, nil
+}
+
+// Exec processes one input line like consoleui.UI.processCommand does: the
+// empty line is a no-op, otherwise the line is parsed and the action of the
+// command is run. Console input is replaced by empty lines and everything the
+// command prints is returned. Panics are propagated.
+func (d *Dis) Exec(line string) (printed string, err error) {
+	if line == "" {
+		return "", nil
+	}
+	SetInput("\n\n\n\n")
+	printed = CaptureStdout(func() {
+		cmd, args, perr := d.parse(line)
+		if perr != nil {
+			err = DisParseError{perr}
+			return
+		}
+		err = cmd.Action(nil, args...)
+	})
+	return printed, err
+}
+
+// IsFind tells whether the line invokes the search command and returns the
+// pattern the user typed: the words after the command separated by single
+// spaces.
+func (d *Dis) IsFind(line string) (string, bool) {
+	parts := disDropEmptyStrs(strings.Split(line, " "))
+	if len(parts) < 2 {
+		return "", false
+	}
+	cmd, ok := d.cmds[parts[0]]
+	if !ok || cmd.Keys[0] != "find" {
+		return "", false
+	}
+	return strings.Join(parts[1:], " "), true
+}
+
+// MatchVector compiles pattern as a POSIX regular expression and reports for
+// every line of the listing whether its text matches.
+func (d *Dis) MatchVector(pattern string) ([]bool, error) {
+	re, err := regexp.CompilePOSIX(pattern)
+	if err != nil {
+		return nil, err
+	}
+	v := make([]bool, d.view.Lines.Len())
+	for i := range v {
+		v[i] = re.MatchString(d.view.Lines.Index(i).String())
+	}
+	return v, nil
+}
+
+// Cursor returns the current cursor value of the listing.
+func (d *Dis) Cursor() int { return d.view.Cursor.Value() }
+
+// NumLines returns the number of lines of the listing.
+func (d *Dis) NumLines() int { return d.view.Lines.Len() }
+
+// Line returns text, mark, block index and instruction index (-1 = none) of
+// the i-th line of the listing.
+func (d *Dis) Line(i int) (text string, mark string, block int, instr int) {
+	l := d.view.Lines.Index(i)
+	block, instr = -1, -1
+	if b, ok := l.Block(); ok {
+		block = b
+	}
+	if n, ok := l.Instruction(); ok {
+		instr = n
+	}
+	return l.String(), string(l.Mark()), block, instr
+}
+
+// LineOf returns Lines.Line(block, ins): the line the listing believes the
+// ins-th instruction of block to be on.
+func (d *Dis) LineOf(block deps.Block, ins int) int { return d.view.Lines.Line(block, ins) }
